@@ -95,6 +95,23 @@ class SimHooks(Hooks):
                             q3.nin += 1
                             q3.events.append(('fget', alv[1], iv))
                             out.append((q3, var('GETC%d' % q3.nin, 32)))
+                        elif name in ('write', 'read') and len(args) == 2 and isinstance(vals[1], V) and vals[1].isconst() and vals[1].c == 1:
+                            # unformatted transfer of exactly one character through a pointer to it
+                            tgt = strip_noncast(args[0])
+                            while tgt['kind'] in ('ImplicitCastExpr', 'CXXReinterpretCastExpr', 'CStyleCastExpr', 'ParenExpr') and children(tgt):
+                                tgt = strip_noncast(children(tgt)[0])
+                            if not (tgt['kind'] == 'UnaryOperator' and tgt.get('opcode') == '&'):
+                                raise AnalysisBroken('fstream %s through an unmodelled pointer at %s' % (name, pos(node)))
+                            for q4, clv in I.lval(children(tgt)[0], q3):
+                                if name == 'write':
+                                    q4.events.append(('fput', alv[1], iv, I.load(q4, clv)))
+                                else:
+                                    q4.nin += 1
+                                    g = var('GETC%d' % q4.nin, 32)
+                                    q4.events.append(('fget', alv[1], iv))
+                                    # read() stores nothing when no character is available: the target keeps what it held
+                                    I.store(q4, clv, ite(p_eq(g, const(32, 0xFFFFFFFF)), I.load(q4, clv), trunc(g, 8)))
+                                out.append((q4, const(1, 0)))
                         else:
                             raise AnalysisBroken('unmodelled fstream operation %s at %s' % (name, pos(node)))
             return out
@@ -267,7 +284,8 @@ def norm_event(e):
         mode = e[4]
         m = None
         if isinstance(mode, V) and mode.isconst():
-            m = {16: 'out', 8: 'in'}.get(mode.c, 'mode%d' % mode.c)
+            # std::ios::binary (4) has no effect on the POSIX hosts this code base builds for: not part of the observable mode
+            m = {16: 'out', 8: 'in'}.get(mode.c & ~4, 'mode%d' % mode.c)
         elif isinstance(mode, Ref) and mode.what in ('global', 'param'):
             m = mode.data
         return ('fopen', e[1], e[2], e[3], m)
